@@ -20,7 +20,7 @@ BASE = dict(
     Subs=S("1"), RGs=S("1"), Consumers=S("a"), AcctChoices=S((5, 1), (7, 2), (0, 3)),
     Reqs=S(2, 4), Vols=S(0, 1, 3), Modes=S("on"), TrigSets=S("none", "final", "partial"),
     TopUps=S(6), MaxSteps=5, MaxSess=1, Limit=100, Pads=S(0), CreateConts=S(0),
-    TwoEntries=False, BadRefs=False, WellBehaved=False, AskAfterFinal=True, KnownDebitNoFui=True, Lrsn0=0, Recharges=True, Traffic=S(), SinkAnswers=S(204),
+    TwoEntries=False, BadRefs=False, WellBehaved=False, AskAfterFinal=True, KnownDebitNoFui=True, Lrsn0=0, Recharges=True, Traffic=S(), SinkAnswers=S(204), AddrKinds=S("none"),
 )
 
 # clause -> invariant of ChfSeqMC that states it on the model
@@ -51,12 +51,23 @@ def realpad(limit, pad):
     return 0 if pad == 0 else 65430 - 45 * (limit - 1 - pad)
 
 
+GROW_ENTRIES = 2035   # calibrated: the record then encodes to about 65 030 octets (just below the guard's limit of 65 519)
+
+
 def size_scenarios(tier):
     """C03: requests that by themselves carry more than a record can hold, and many updates on one session."""
     acct = [dict(u="1", rg="1", quota=1000000, cost="1")]
     big = [dict(rg="1", req=-1, conts=[dict(m="off", vol=1)] * 4000)]
     many = [dict(a="update", u="1", s="s1", usage=[dict(rg="1", req=-1, conts=[dict(m="off", vol=1)] * 120)]) for _ in range(20 if tier == "quick" else 60)]
+    # a record filled by many small usage entries, then entries that encode larger than the earliest ones
+    small = [dict(rg="1", req=-1, conts=[dict(m="off", vol=1)])] * GROW_ENTRIES
+    large = [dict(rg="1", req=-1, conts=[dict(m="off", vol=1)] * 60)]
+    growing = dict(id="C03-growing", lrsn0=0, wb=False, ues=["1"], accts=acct,
+                   steps=[dict(a="create", u="1", s="s1", c="a", chid=1, usage=[]), dict(a="update", u="1", s="s1", usage=small),
+                          dict(a="update", u="1", s="s1", usage=large), dict(a="update", u="1", s="s1", usage=large),
+                          dict(a="release", u="1", s="s1", usage=large, trig=[])])
     return [
+        growing,
         dict(id="C03-bigcreate", lrsn0=0, wb=False, ues=["1"], accts=acct,
              steps=[dict(a="create", u="1", s="s1", c="a", chid=1, pad=66000, usage=[])]),
         dict(id="C03-bigupdate", lrsn0=0, wb=False, ues=["1"], accts=acct,
@@ -125,6 +136,8 @@ def cfg(pid, tier):
         ]
     elif pid in ("C02", "C03"):
         base = dict(Reqs=S(4), Vols=S(2), TopUps=S(), Recharges=False, AcctChoices=S((40, 1)))
+        addr = sl("addr", 400 if q else 3000, MaxSess=2, MaxSteps=4 if q else 5, CreateConts=S(0), Modes=S("off"),
+                  TrigSets=S("none"), AddrKinds=S("none", "v4", "v6", "fqdn", "all"), **base)
         if q:
             slices = [
                 sl("sessions", 900, Subs=S("1", "2"), MaxSess=3, MaxSteps=4, CreateConts=S(0, 2), Modes=S("on", "off"),
@@ -133,6 +146,7 @@ def cfg(pid, tier):
                    TrigSets=S("none", "partial", "final"), **base),
                 sl("two-rg", 300, RGs=S("1", "2"), TwoEntries=True, MaxSess=2, MaxSteps=3, Modes=S("on", "off"), Limit=6,
                    TrigSets=S("none", "partial", "final"), **base),
+                addr,
             ]
         else:
             slices = [
@@ -142,6 +156,7 @@ def cfg(pid, tier):
                    TrigSets=S("none", "partial", "final"), **base),
                 sl("two-rg", 4000, RGs=S("1", "2"), TwoEntries=True, MaxSess=2, MaxSteps=4, Modes=S("on", "off"), Limit=6,
                    TrigSets=S("none", "partial", "final"), **base),
+                addr,
             ]
         if pid == "C02":
             extra = tz_scenarios()
